@@ -128,7 +128,7 @@ func applyPipelineConstants(module *ir.Module, constants map[string]float64) *ir
 						scalar = st
 					}
 				}
-				if scalar.Kind != 0 {
+				if scalar.Width != 0 {
 					if typed := convertLiteralToType(lit, scalar); typed != nil {
 						lit = typed
 					}
